@@ -35,7 +35,7 @@ CFG = dict(
     imports=["From Verif.Common Require Import Packet Ipt.", "From Verif.C40 Require Import Model Spec.",
              "Open Scope N_scope.", "Open Scope string_scope."],
     checker="check_case",
-    n=dict(quick=30, thorough=1200),
+    n=dict(quick=30, thorough=400),
     shard=6,
     deps=["Common", "C08"],
     rule="generated rules.Config (4 mark layouts, 6 workload-prefix sets, 0-13 inbound/outbound failsafe entries with nets of either "
@@ -52,11 +52,20 @@ CFG = dict(
              "hand-written model coq/theories/C40/Model.v tied to felix/rules/static.go by this correspondence run (structural equality of rule lists)"],
     assumptions=["netfilter hook order raw -> mangle -> filter; a table's ACCEPT ends that table only; DROP/REJECT end the packet; "
                  "between tables only skb mark and conntrack state change (theorems are per hook for arbitrary entry mark / ct state)",
-                 "Felix's top-level chains are the first rule of the kernel chains (int_dataplane.go setUpIptablesNormal; not executed by the driver)",
-                 "IP set contents, address types (LOCAL), RPF result, conntrack DNAT status are oracles",
-                 "PARTIAL: NAT table, mangle POSTROUTING, Wireguard crypto routing, BPF-mode raw chains, kube-proxy IPVS paths, nftables flow offload are outside the model",
-                 "failsafe clause: conntrack state INVALID excluded (endpoint chains drop INVALID before the failsafe jump unless DisableConntrackInvalidCheck); "
-                 "packets that the tunnel clause governs excluded (IPIP; a failsafe UDP port equal to the VXLAN port from a non-cluster source)"],
+                 "Felix's top-level chains are the first rule of the kernel chains (int_dataplane.go setUpIptablesNormal; read, not executed by the driver)",
+                 "IP set contents, address types (LOCAL), RPF result, conntrack DNAT status are oracles; the address-type oracle does not look at the skb mark",
+                 "PARTIAL: NAT table, mangle POSTROUTING, Wireguard crypto routing, BPF-mode raw chains, kube-proxy IPVS paths (KubeIPVSSupportEnabled=false), "
+                 "nftables renderer / flow offload are outside the model; only the iptables renderer is driven",
+                 "callee chains (dispatch, endpoint, policy, profile, cali-rpf-skip, cali-cidr-block) are universally quantified in the theorems, constrained only by "
+                 "the decidable shape conditions of Shape.v, which every run evaluates on the real renderer's chains (Spec.shapes_ok)",
+                 "failsafe clause: conntrack state INVALID excluded (c40_failsafe_invalid_ct_refuted: endpoint chains drop INVALID before the failsafe jump); "
+                 "packets that the tunnel clause governs excluded (IPIP; a failsafe UDP port equal to the VXLAN port from a non-cluster source); "
+                 "WireguardMark disjoint from MarkScratch0 (Config.validate)",
+                 "unknown-interface clause on FORWARD: the chains cali-FORWARD visits before the from-workload dispatch do not ACCEPT the packet "
+                 "(c40_unknown_iface_forward_established_refuted; known finding unknown-wl-established-accepted-early); on INPUT and in the workload-to-host "
+                 "clause the pre-policy special cases are excluded (c40_unknown_iface_nd_refuted; known finding wl-to-host-pre-policy-accepts)",
+                 "workload-to-host clause: the endpoint's egress chain evaluates within 11 nested jumps (acyclic chain graph)",
+                 "driver domain: Wireguard interface names non-empty (an empty name renders a malformed '--in-interface  --jump RETURN' rule in cali-wireguard-incoming-mark)"],
     classify=classify,
 )
 
